@@ -493,6 +493,17 @@ func registerIntrinsics(e *Engine) {
 		return tuple{BV(64, uint64(len(src)-1)), iface{}}
 	}
 
+	// hash/maphash: the seed is an opaque constant, the hash an uninterpreted function of the bytes
+	// (a different function per process in reality; collisions are outside every claim)
+	in["hash/maphash.MakeSeed"] = func(fr *frame, args []value) value {
+		return structure{BV(64, 0x9e3779b97f4a7c15)}
+	}
+	in["hash/maphash.Bytes"] = func(fr *frame, args []value) value {
+		return ufBytes(fr, "maphash", 64, sliceBytes(args[1]))
+	}
+	in["hash/maphash.String"] = func(fr *frame, args []value) value {
+		return ufBytes(fr, "maphash", 64, strBytes(args[1]))
+	}
 	in["github.com/google/uuid.NewString"] = func(fr *frame, args []value) value {
 		r := fr.run()
 		r.uuidN++
